@@ -22,9 +22,9 @@ type hookSub struct {
 }
 
 var (
-	hookMu   sync.Mutex
-	hookSubs = map[string]*hookSub{}
-	hookOnce sync.Once
+	hookMu      sync.Mutex
+	hookSubs    = map[string]*hookSub{}
+	hookOnce    sync.Once
 	stalledRuns int32
 	// HooksSeen is set once any feeder hook fired: the tree under test has the call sites.
 	HooksSeen int32
@@ -128,6 +128,7 @@ type E2EResult struct {
 	Steered    bool
 	ExtraOK    bool
 	Fetches    int
+	CloseHung  bool
 	Resps      [][]int64 // offsets parseResponse must have produced from each data response served for partition 0
 }
 
@@ -312,11 +313,12 @@ func RunE2E(seed int64, sc E2EScenario) E2EResult {
 		}(xp)
 	}
 	var errsMu sync.Mutex
+	var errs []error
 	errDone := make(chan struct{})
 	go func() {
 		for e := range pc.Errors() {
 			errsMu.Lock()
-			res.Errs = append(res.Errs, e.Err)
+			errs = append(errs, e.Err)
 			errsMu.Unlock()
 		}
 		close(errDone)
@@ -385,21 +387,58 @@ loop:
 		case <-time.After(40 * time.Millisecond):
 		}
 	}
-	pc.AsyncClose()
-	for m := range pc.Messages() {
-		if res.Complete {
-			res.Delivered = append(res.Delivered, m)
+	// expiry events nobody waited for (the reader was slower than MaxProcessingTime by itself)
+	for more := true; more; {
+		select {
+		case off := <-sub.expiry:
+			res.Stalled = append(res.Stalled, off)
+		default:
+			more = false
 		}
 	}
-	<-errDone
+	// shut down; a consumer whose goroutines died would never close its channels: bounded waits (C12 owns shutdown)
+	pc.AsyncClose()
+	deadline := time.After(3 * time.Second)
+drain:
+	for {
+		select {
+		case m, ok := <-pc.Messages():
+			if !ok {
+				break drain
+			}
+			if res.Complete {
+				res.Delivered = append(res.Delivered, m)
+			}
+		case <-deadline:
+			res.CloseHung = true
+			break drain
+		}
+	}
+	select {
+	case <-errDone:
+	case <-time.After(3 * time.Second):
+		res.CloseHung = true
+	}
 	for _, xp := range extras {
 		xp.AsyncClose()
 	}
-	wgx.Wait()
-	for _, xp := range extras {
-		for range xp.Messages() {
+	xdone := make(chan struct{})
+	go func() {
+		wgx.Wait()
+		for _, xp := range extras {
+			for range xp.Messages() {
+			}
 		}
+		close(xdone)
+	}()
+	select {
+	case <-xdone:
+	case <-time.After(3 * time.Second):
+		res.CloseHung = true
 	}
+	errsMu.Lock()
+	res.Errs = append([]error(nil), errs...)
+	errsMu.Unlock()
 	res.ExtraOK = atomic.LoadInt32(&extraOK) == 1
 	res.Started, res.HasStarted = resolve()
 	mu.Lock()
